@@ -109,6 +109,11 @@ Definition spec_rel (σ : gmap N (gmap N elem)) (o : op) (r : out) (σ' : gmap N
         r = OutL (foldr insert_sorted [] (map elem3 l)) /\ σ' = <[s := if delta =? 0 then m else bumpv delta <$> m]> σ
   | OParExtend s chunks => exists m : gmap N elem, σ !! s = Some m /\
       ((r = OutU /\ σ' = <[s := ext m (concat chunks)]> σ) \/ (r = OutP PCapOverflow /\ exists m' : gmap N elem, σ' = <[s := m']> σ))
+  (* serde *)
+  | OSerialize s => exists (m : gmap N elem) l, σ !! s = Some m /\ NoDup (map ek l) /\ list_to_emap l = m /\
+      r = OutS [OutN (N.of_nat (length l)); OutL (map elem3 l)] /\ σ' = σ
+  | ODeserInPlace s items hint => exists m : gmap N elem, σ !! s = Some m /\
+      ((r = OutU /\ σ' = <[s := ext ∅ items]> σ) \/ (r = OutP PCapOverflow /\ exists m' : gmap N elem, σ' = <[s := m']> σ))
   (* HashSet algebra: each key of the mathematical result exactly once (the result is shown
      sorted; l is what was yielded), every yielded object an element of one of the operands *)
   | OSetAlg kind a b => exists ma mb : gmap N elem, σ !! a = Some ma /\ σ !! b = Some mb /\ σ' = σ /\
@@ -126,7 +131,7 @@ Definition core_op (o : op) : Prop :=
   | OIter _ _ _ | ORetain _ _ _ | ODrainFilter _ _ _ _ _ | ODrain _ _ _ | OIntoIter _ _ => True
   | OClone _ _ | OCloneFrom _ _ | OEq _ _ => True
   | OEntry _ _ _ _ | ORawEntry _ _ _ _ | ORawGet _ _ _ => True
-  | OSetAlg _ _ _ | OSetPred _ _ _ | OParIter _ _ _ _ | OFromIter _ _ _ _ => True
+  | OSetAlg _ _ _ | OSetPred _ _ _ | OParIter _ _ _ _ | OFromIter _ _ _ _ | OSerialize _ | ODeserInPlace _ _ _ => True
   | OExtend _ _ hint => hint <= usize_max
   | OParExtend _ chunks => N.of_nat (length (concat chunks)) < usize_max
   | OReserve _ n | OTryReserve _ n => n <= usize_max
@@ -597,6 +602,28 @@ Proof.
       * left. split; [discriminate|]. unfold step_post. split; [apply WInv_store; assumption|].
         rewrite Eop. cbn [spec_rel]. exists (rt_abs (m_rt ms)). split; [apply wabs_lookup; exact Hs|]. right.
         split; [reflexivity|]. eexists. apply wabs_store.
+  - (* OSerialize *)
+    apply wres_rmap. destruct (w_maps w !! s) as [ms|] eqn:Hs; [|apply with_slot_gen_missing; exact Hs].
+    pose proof (HW s ms Hs) as HI.
+    apply with_slot_gen_spec with (ms := ms); [exact Hs|]. intros _.
+    apply (map_serialize_spec c); [exact HI|]. intros l Hit. cbn [load s_rt fst snd] in *.
+    destruct (iter_of_abs c _ _ HI Hit) as [Hemap Hnd].
+    unfold step_post. split; [apply WInv_store; [exact HW|exact HI]|]. rewrite Eop. cbn [spec_rel].
+    exists (rt_abs (m_rt ms)), (map snd l). split; [apply wabs_lookup; exact Hs|]. split; [exact Hnd|]. split; [exact Hemap|].
+    split; [rewrite map_length, map_map; reflexivity|]. apply store_same; [exact Hs|reflexivity].
+  - (* ODeserInPlace *)
+    apply wres_rmap. destruct (w_maps w !! s) as [ms|] eqn:Hs; [|apply with_slot_gen_missing; exact Hs].
+    pose proof (HW s ms Hs) as HI.
+    apply with_slot_gen_spec with (ms := ms); [exact Hs|]. intros _.
+    eapply wp_conseq; [apply (map_deser_in_place_spec c items hint); exact HI| |]; cbn [load s_rt].
+    + intros [] s1 [HI1 Habs1]. unfold step_post. split; [apply WInv_store; assumption|].
+      rewrite Eop. cbn [spec_rel]. exists (rt_abs (m_rt ms)). split; [apply wabs_lookup; exact Hs|]. left.
+      split; [reflexivity|]. rewrite wabs_store, Habs1. reflexivity.
+    + intros p s1 [HI1 [->| ->]].
+      * right. split; [reflexivity|apply WInv_store; assumption].
+      * left. split; [discriminate|]. unfold step_post. split; [apply WInv_store; assumption|].
+        rewrite Eop. cbn [spec_rel]. exists (rt_abs (m_rt ms)). split; [apply wabs_lookup; exact Hs|]. right.
+        split; [reflexivity|]. eexists. apply wabs_store.
 Qed.
 
 (* ------------------------------------------------------------------ without a fuse, no user panic *)
@@ -668,6 +695,8 @@ Proof.
   - destruct (w_maps w !! a) as [ma|]; [|exact I]. destruct (w_maps w !! b) as [mb|]; [|exact I]. destruct (_ || _); [exact I|exact Hf].
   - apply wnf_rmap. apply with_slot_gen_nf; [|exact Hf]. apply nf_map_par_iter.
   - apply wnf_rmap. apply with_slot_gen_nf; [|exact Hf]. apply nf_map_par_extend.
+  - apply wnf_rmap. apply with_slot_gen_nf; [|exact Hf]. apply nf_map_serialize.
+  - apply wnf_rmap. apply with_slot_gen_nf; [|exact Hf]. apply nf_map_deser_in_place.
 Qed.
 
 (* ------------------------------------------------------------------ histories *)
